@@ -621,4 +621,46 @@ example : openOrWrite ToyPem none false (.file (marshalPrivKeyPem ToyPem (List.r
     .ok (⟨some (List.replicate 64 3), false⟩, .file (marshalPrivKeyPem ToyPem (List.replicate 64 3))) :=
   (missing_writes_and_reloads ToyPem toyPem_law _ (by simp)).2 none false
 
+/-! ### history independence (wave 4) -/
+
+/-- **The outcome of a load is a function of what the path holds NOW**: after ANY earlier loads of the
+same path in the same process (`h₁`, `h₂`: any number of loads, any file states in between, starting
+from any state), a load that finds the path in state `now` returns what a first load of `now`
+returns. -/
+theorem load_history_independent (P : PemCodec) (fs₁ fs₂ : FsState) (h₁ h₂ : List LoadStep)
+    (gen : Option Bytes) (w : Bool) (now : FsState) :
+    loadAfter P fs₁ h₁ ⟨gen, w, fun _ => now⟩ = openOrWrite P gen w now ∧
+    loadAfter P fs₁ h₁ ⟨gen, w, fun _ => now⟩ = loadAfter P fs₂ h₂ ⟨gen, w, fun _ => now⟩ :=
+  ⟨rfl, rfl⟩
+
+/-- A path that was loaded before (any history) and now holds a file without a private key is an
+error and no key — never the key of an earlier load. -/
+theorem replaced_by_non_key_is_error (P : PemCodec) (fs : FsState) (h : List LoadStep)
+    (gen : Option Bytes) (w : Bool) (b : Bytes)
+    (hb : P.decode b = none ∨ (∃ t d r, P.decode b = some (t, d, r) ∧
+      (t ≠ privPemType ∨ unmarshalPrivateKey d = .err))) :
+    loadAfter P fs h ⟨gen, w, fun _ => .file b⟩ = .ok (⟨none, true⟩, .file b) :=
+  non_key_file_is_error P gen w b hb
+
+/-- A path that was loaded before and now holds the key file of `k` yields `k`. -/
+theorem replaced_by_other_key_is_that_key (P : PemCodec) (L : PemLaw P) (fs : FsState) (h : List LoadStep)
+    (gen : Option Bytes) (w : Bool) (k : Bytes) (hk : k.length = 64) :
+    loadAfter P fs h ⟨gen, w, fun _ => .file (marshalPrivKeyPem P k)⟩ =
+      .ok (⟨some k, false⟩, .file (marshalPrivKeyPem P k)) :=
+  (missing_writes_and_reloads P L k hk).2 gen w
+
+/-- Non-vacuity: generate at a missing path, reload, the file is zeroed (same length), load: error;
+another key is put there, load: that key. -/
+example :
+    let k1 := List.replicate 64 (3 : UInt8)
+    let k2 := List.replicate 64 (5 : UInt8)
+    let hist : List LoadStep := [⟨some k1, true, id⟩, ⟨none, false, id⟩]
+    sessionState ToyPem .missing hist = .file (marshalPrivKeyPem ToyPem k1) ∧
+    loadAfter ToyPem .missing hist ⟨none, false, fun _ => .file (List.replicate 10 0)⟩ =
+      .ok (⟨none, true⟩, .file (List.replicate 10 0)) ∧
+    loadAfter ToyPem .missing hist ⟨none, false, fun _ => .file (marshalPrivKeyPem ToyPem k2)⟩ =
+      .ok (⟨some k2, false⟩, .file (marshalPrivKeyPem ToyPem k2)) := by
+  refine ⟨by decide, by decide, ?_⟩
+  exact replaced_by_other_key_is_that_key ToyPem toyPem_law _ _ _ _ _ (by simp)
+
 end Bifrost.Props.C39
